@@ -260,6 +260,10 @@ def catalogue(d, tier, rnd, codesets):
     for v in (filler(ty, mn) + ' ', filler(ty, mn) + '  ', filler(ty, max(mn - 1, 0)) + ' ', filler(ty, mx) + ' ',
               filler(ty, max(mx - 1, 1)) + ' ', ' ', '  ', ' ' * max(mn, 1), 'A  ', 'A  ', filler(ty, mn) + ' '):
         add(('s', v))
+    # blanks at BOTH ends: the minimum length reached only thanks to leading blanks (rstrip vs strip), one short of it, at it
+    for v in (' ' * max(mn - 1, 1) + 'A ', ' ' + filler(ty, max(mn - 1, 1)) + ' ', ' ' + filler(ty, max(mn - 2, 1)) + '  ',
+              '  ' + filler(ty, max(mn - 2, 1)) + ' ', ' A ', ' ' + filler(ty, mn) + ' '):
+        add(('s', v))
     # inline codes
     if d.codes:
         codes = d.codes
